@@ -311,6 +311,20 @@ fn hostile_families(tier: &str, bound: usize, out: &mut Vec<Spec>) {
 }
 
 pub fn families(id: &str, tier: &str) -> Vec<Spec> {
+    let mut out = families_base(id, tier);
+    // VERIF_BOUND_PLUS=n deepens every family of a run by n deviations (bursts excepted)
+    let plus: usize = std::env::var("VERIF_BOUND_PLUS").ok().and_then(|s| s.parse().ok()).unwrap_or(0);
+    if plus > 0 {
+        for sp in out.iter_mut() {
+            if sp.bound > 1 {
+                sp.bound += plus;
+            }
+        }
+    }
+    out
+}
+
+fn families_base(id: &str, tier: &str) -> Vec<Spec> {
     let thorough = tier == "thorough";
     let mut out = Vec::new();
     match id {
